@@ -32,6 +32,19 @@ struct MOp {
     signature: Signature,
 }
 #[derive(Serialize, Deserialize, Clone)]
+struct MSigned {
+    register: MReg,
+    signature: Signature,
+    ops: BTreeSet<MOpOrd>,
+}
+#[derive(Serialize, Deserialize, Clone, PartialEq, Eq, PartialOrd, Ord)]
+struct MOpOrd {
+    address: RegisterAddress,
+    crdt_op: MNode,
+    source: PublicKey,
+    signature: Signature,
+}
+#[derive(Serialize, Deserialize, Clone)]
 struct MReg {
     address: RegisterAddress,
     permissions: Permissions,
@@ -284,6 +297,16 @@ fn run(case: &Value) -> Value {
                 .iter()
                 .map(|i| regs[i.as_u64().unwrap() as usize].clone())
                 .collect();
+            // replicas that arrive ready-made from the network: SignedRegister::new with any ops
+            if let Some(init) = case["init_ops"].as_object() {
+                for (slot, l) in init {
+                    let i: usize = slot.parse().unwrap();
+                    let ops: BTreeSet<RegisterOp> =
+                        l.as_array().unwrap().iter().map(|x| p.ops[x.as_u64().unwrap() as usize].clone()).collect();
+                    let m: MSigned = recode(&reps[i]);
+                    reps[i] = SignedRegister::new(reps[i].base_register().clone(), m.signature, ops);
+                }
+            }
             for s in case["steps"].as_array().unwrap() {
                 let kind = s[0].as_str().unwrap();
                 let i = s[1].as_u64().unwrap() as usize;
